@@ -26,7 +26,7 @@ HARNESSES[-9]["encoded"] = ["hwloc_bitmap_iszero", "hwloc_bitmap_isfull"]
 for i, n in enumerate(["isequal", "isincluded", "intersects", "compare", "compare_first", "compare_inclusion"]):
     add("query2_" + n, "h_query2", {"Q2OP": i}, ["hwloc_bitmap_" + n])
 for i, (n, ga) in enumerate([("set", 1), ("or", 1), ("set_range", 2), ("only", 2)]):
-    add("growth_" + n, "h_growth", {"GOP": i, "GALLOC": ga}, ["hwloc_bitmap_" + n, "hwloc_bitmap_enlarge_by_ulongs", "hwloc_bitmap_realloc_by_ulongs", "hwloc_flsl"],
+    add("growth_" + n, "h_growth", {"GOP": i, "GALLOC": ga, "VP_REALLOC_K": 64}, ["hwloc_bitmap_" + n, "hwloc_bitmap_enlarge_by_ulongs", "hwloc_bitmap_realloc_by_ulongs", "hwloc_flsl"],
         bounds="destination allocated with %d word(s) (constant), grown through the real enlarge code up to 8 words" % ga,
         tiers={"quick": {"defines": {"NW": 2}}, "thorough": {"defines": {"NW": 4}}})
 
